@@ -9,4 +9,5 @@ mkdir -p .deps .build evidence replays
 /venv/bin/python -c "import sys; sys.path.insert(0,'/verif/.deps'); import atheris" 2>/dev/null || \
   /venv/bin/pip install --no-index --find-links /opt/veriftools/wheels --target /verif/.deps atheris >/dev/null 2>&1 || echo "note: atheris not installable; fuzz tier will be skipped"
 /venv/bin/python vlib/build.py plain
+/venv/bin/python vlib/build.py asan
 echo setup done
